@@ -133,3 +133,6 @@ pub open spec fn evals_w(rt: &Runtime, node: Ast, d: Variable, r: Variable, w: W
             && members(rt, args@, d, vals, ws) && rt_lookup(rt, name@) is Some,
     }
 }
+
+/// the relation without its witness
+pub open spec fn evals(rt: &Runtime, node: Ast, d: Variable, r: Variable) -> bool { exists|w: W| evals_w(rt, node, d, r, w) }
